@@ -78,8 +78,8 @@ func (r *conc14Runner) parallel(target string, n int, body func(w int, rng *rand
 	go func() { wg.Wait(); close(done) }()
 	select {
 	case <-done:
-	case <-time.After(60 * time.Second):
-		r.add("C14", "deadlock", fmt.Sprintf("%s seed=%d: workers did not finish within 60s", target, seed))
+	case <-time.After(180 * time.Second):
+		r.add("C14", "deadlock", fmt.Sprintf("%s seed=%d: workers did not finish within 180s", target, seed))
 		return false
 	}
 	if panics > 0 {
